@@ -699,6 +699,10 @@ class Val:
         items = None
         if self.items is not None and o.items is not None and len(self.items) == len(o.items):
             items = tuple(a.join(b) for a, b in zip(self.items, o.items))
+        elif self.items is None and self.tags == {"none"}:
+            items = o.items          # None cannot be destructured: the other side decides
+        elif o.items is None and o.tags == {"none"}:
+            items = self.items
         return Val(self.roots | o.roots, self.reach | o.reach, self.tags | o.tags,
                    self.elem | o.elem, self.fns | o.fns, items,
                    self.prefix if self.prefix == o.prefix else None)
@@ -710,7 +714,12 @@ class Val:
         return Val(**d)
 
     def all_tags(self):
-        return self.tags | self.elem
+        """tags of the value and of everything it may contain (any depth), without depth marks"""
+        return self.tags | frozenset(t[3:] if t.startswith("in:") else t for t in self.elem)
+
+    def as_elem(self):
+        """what this value contributes to the `elem` of a container it is put into"""
+        return self.tags | frozenset(t if t.startswith("in:") else "in:" + t for t in self.elem)
 
     def everything(self):
         """roots and reach that are not immutable"""
@@ -732,6 +741,15 @@ def v_unknown(why: str) -> Val:
     return Val({("unknown", why)}, tags={"unknown"})
 
 
+def imm_norm(v: Val) -> Val:
+    """A value that is definitely immutable cannot be written through: forget what it aliases."""
+    if v.tags and v.tags <= IMM_TAGS and not (v.roots <= {IMM} and not v.reach):
+        if any(r[0] in ("clsobj", "module") for r in v.roots):
+            return v
+        return Val({IMM}, E, v.tags, v.elem, v.fns, v.items, v.prefix)
+    return v
+
+
 def join_vals(vs) -> Val:
     out = None
     for v in vs:
@@ -750,8 +768,14 @@ def deepen(r, fld: str):
     return r
 
 
+_EMPTY_SHARED = [lambda r: False]
+
+
 def contents(v: Val, fld: str = "[]") -> FrozenSet:
-    return frozenset(deepen(r, fld) for r in v.roots if not is_fresh(r) and r != IMM) | v.reach
+    """Roots of what may be loaded out of v.  A mutable default-argument object that is created
+    empty and into which no analysed code ever stores anything has no contents."""
+    return frozenset(deepen(r, fld) for r in v.roots
+                     if not is_fresh(r) and r != IMM and not (r[0] == "default" and _EMPTY_SHARED[0](r))) | v.reach
 
 
 def strip_fresh(v: Val) -> Val:
@@ -864,6 +888,8 @@ class Analysis:
         self.results: Dict[str, "Effects"] = {}
         self.changed = False
         self.iterations = 0
+        self.stored_into: Set[Tuple] = set()      # shared roots into which some site stores a value
+        _EMPTY_SHARED[0] = self.is_empty_shared
         self.subclasses: Dict[str, List[Class]] = {}
         for c in prog.classes.values():
             for b in c.mro()[1:]:
@@ -895,6 +921,20 @@ class Analysis:
                 table[key] = new
                 self.changed = True
 
+    def is_empty_shared(self, r) -> bool:
+        if r in self.stored_into or r[0] != "default":
+            return False
+        f = self.prog.funcs.get(r[1])
+        e = f.defaults.get(r[2]) if f is not None else None
+        if isinstance(e, (ast.List, ast.Set, ast.Tuple)):
+            return not e.elts
+        if isinstance(e, ast.Dict):
+            return not e.keys
+        if isinstance(e, ast.Call) and isinstance(e.func, ast.Name) and e.func.id in ("list", "dict", "set") \
+                and not e.args and not e.keywords:
+            return True
+        return False
+
     def family(self, cls: Class) -> List[Class]:
         return cls.mro() + self.subclasses.get(cls.key, [])
 
@@ -913,7 +953,7 @@ class Analysis:
         return out
 
     # ---- driver ---------------------------------------------------------------------
-    def run(self, max_rounds: int = 25):
+    def run(self, max_rounds: int = 60):
         order = sorted(self.prog.funcs.values(), key=lambda f: (f.module.name, f.node.lineno if not f.is_module else 0, f.key))
         for rnd in range(max_rounds):
             self.changed = False
@@ -925,15 +965,8 @@ class Analysis:
                 s = self.summ.get(f.key)
                 new = e.summary()
                 if s is None or s.sig() != new.sig():
-                    if s is not None:      # keep the tables monotone
-                        for loc, sites in s.mod.items():
-                            new.mod.setdefault(loc, {}).update({k: v for k, v in sites.items() if k not in new.mod.get(loc, {})})
-                        new.ret = new.ret.join(s.ret)
-                        for p, r in s.param_reach.items():
-                            new.param_reach[p] = new.param_reach.get(p, E) | r
-                    if s is None or s.sig() != new.sig():
-                        self.summ[f.key] = new
-                        self.changed = True
+                    self.changed = True
+                self.summ[f.key] = new
             if not self.changed:
                 break
         else:
@@ -1034,7 +1067,7 @@ class Effects(Flow):
             if fs.kind == "bind":
                 self.A.merge(self.A.fieldvals, (fs.cls, fs.field), v)
             else:
-                cur = Val(reach=v.everything(), elem=v.all_tags())
+                cur = Val(reach=v.everything(), elem=v.as_elem())
                 self.A.merge(self.A.fieldvals, (fs.cls, fs.field), cur)
 
     def summary(self) -> Summary:
@@ -1067,6 +1100,10 @@ class Effects(Flow):
 
     # ---- values of parameters / receiver ------------------------------------------------------
     def inst_tags(self, c: Class) -> FrozenSet:
+        for k in c.mro():
+            for b in k.base_exprs:
+                if src_of(b).split(".")[-1] in ("Enum", "IntEnum", "Flag", "IntFlag", "StrEnum"):
+                    return frozenset({"ext-imm"})      # enum members are immutable singletons
         t = {"inst:" + c.key}
         if self.prog.is_node_class(c):
             t.add("node")
@@ -1136,7 +1173,7 @@ class Effects(Flow):
                 inner = [self.ann_val(p, depth + 1) for p in parts]
                 if any(v is None for v in inner):
                     return base.with_(elem={"unknown"})
-                return base.with_(elem=frozenset().union(*[v.all_tags() for v in inner]) if inner else E)
+                return base.with_(elem=frozenset().union(*[v.as_elem() for v in inner]) if inner else E)
             if nm in ("Callable",):
                 return Val(tags={"callable"})
             if nm in ("ClassVar", "Final"):
@@ -1176,7 +1213,8 @@ class Effects(Flow):
             if known is None:
                 tags |= pv.tags
             elem |= pv.elem
-            v = v.with_(reach=frozenset(r for r in (pv.roots | pv.reach) if is_shared(r)))
+            # what callers pass is represented by the ('param', p, ..) roots and translated back at
+            # every call site; nothing of it needs to be known here
         if dv is not None:
             fns |= dv.fns
             if known is None:
@@ -1184,6 +1222,8 @@ class Effects(Flow):
             v = v.with_(roots=v.roots | frozenset(r for r in dv.roots if r != IMM))
         if not tags:
             tags = frozenset({"unknown"})
+        if tags <= IMM_TAGS:
+            v = v.with_(reach=E)
         return v.with_(tags=tags, elem=elem, fns=fns)
 
     # ---- recording -----------------------------------------------------------------------
@@ -1233,7 +1273,8 @@ class Effects(Flow):
         self.sites.setdefault(s.key(), s)
 
     def add_reach(self, st: St, roots: FrozenSet, stored: Val):
-        ev, tags = stored.everything(), stored.all_tags()
+        # the target may be the container itself or (roots are collapsed) something inside it
+        ev, tags = stored.everything(), stored.as_elem() | frozenset("in:" + t for t in stored.tags)
         rs = frozenset(r for r in roots if r != IMM)
         if not rs or (not ev and not tags):
             return
@@ -1251,6 +1292,10 @@ class Effects(Flow):
             if loc is not None:
                 self.record(loc, node, how)
         if stored is not None:
+            for r in base.roots:
+                if r[0] == "default" and r not in self.A.stored_into:
+                    self.A.stored_into.add(r)
+                    self.A.changed = True
             self.add_reach(st, base.roots, stored)
             shared = frozenset(r for r in stored.everything() if is_shared(r))
             for r in base.roots:
@@ -1347,6 +1392,9 @@ class Effects(Flow):
         return Val({IMM}, tags={"callable"}, fns={("builtin", name)})
 
     def bind(self, st: St, name: str, v: Val):
+        if self.f.is_module and name in self.m.data and not (v.roots <= {IMM} and v.tags <= IMM_TAGS) \
+                and not v.fns and not any(r[0] in ("clsobj", "module") for r in v.roots):
+            v = v.with_(roots=v.roots | {("global", self.m.name, name)})
         st.env[name] = v
         self.any[name] = self.any[name].join(v) if name in self.any else v
         if self.f.is_module and name in self.m.data:
@@ -1396,7 +1444,7 @@ class Effects(Flow):
             if a == "__class__":
                 return Val({("clsobj", c.key)}, tags={"class"}, fns={("cls", c.key)})
             outs.append(Val({("self", a)}, tags={"unknown"}))
-        return join_vals(outs)
+        return join_vals([imm_norm(o) for o in outs])
 
     def inst_classes(self, v: Val) -> List[Class]:
         out = []
@@ -1406,6 +1454,8 @@ class Effects(Flow):
         return out
 
     def attr_val(self, base: Val, a: str, st: St, node) -> Val:
+        if not base.roots and not base.tags and not base.fns:
+            return V_EMPTY          # bottom: the callee that produces the object is not summarised yet
         outs: List[Val] = []
         others = set()
         for r in sorted(base.roots, key=str):
@@ -1438,8 +1488,10 @@ class Effects(Flow):
                 for c in self.A.subclasses.get(self.prog.node_base.key, []):
                     if c not in classes and a in c.methods:
                         classes.append(c)
-            tags, elem, fns, found = set(), set(), set(), False
+            tags, elem, fns, found, only_methods = set(), set(), set(), False, bool(classes)
             for c in classes:
+                if not any(k.find_method(a) is not None for k in [c] + self.A.subclasses.get(c.key, [])):
+                    only_methods = False
                 for k in [c] + [s for s in self.A.subclasses.get(c.key, []) if a in s.methods]:
                     m = k.find_method(a)
                     if m is not None:
@@ -1477,8 +1529,1021 @@ class Effects(Flow):
                 for m in self.A.methods_by_name[a]:     # duck typing on an untyped receiver
                     if not m.is_property:
                         fns.add(("func", m.key, oth))
-            roots = frozenset(deepen(r, a) for r in oth if not is_fresh(r) and r != IMM) | base.reach
+            roots = frozenset(deepen(r, a) for r in oth if not is_fresh(r) and r != IMM
+                              and not (r[0] == "default" and _EMPTY_SHARED[0](r))) | base.reach
+            if only_methods:
+                # every possible class of the receiver defines `a` as a method/property
+                if fns:
+                    outs.append(Val({IMM}, tags={"callable"}, fns=fns))
+                return join_vals(outs)
             if not tags:
                 tags = {"unknown"}
-            outs.append(Val(roots or {IMM}, base.reach, tags, elem, fns))
+            outs.append(imm_norm(Val(roots or {IMM}, base.reach, tags, elem, fns)))
         return join_vals(outs)
+
+    # ---- expressions -----------------------------------------------------------------------
+    def elem_val(self, it: Val) -> Val:
+        if it.items:
+            return join_vals(it.items)
+        tags = frozenset(t for t in it.elem if not t.startswith("in:"))
+        deeper = frozenset(t for t in it.elem if t.startswith("in:"))
+        if not tags:
+            if it.tags and it.tags <= {"str"}:
+                tags = frozenset({"str"})
+            elif it.tags <= {"list", "dict", "set", "tuple", "none"}:
+                # bottom (nothing known yet) or a container into which nothing has been put
+                return Val(contents(it), it.reach)
+            else:
+                tags = frozenset({"unknown"})
+        return imm_norm(Val(contents(it) or {IMM}, it.reach, tags, deeper | frozenset(t[3:] for t in deeper)))
+
+    def container(self, node, parts: List[Val], tag: str, items=None) -> Val:
+        reach, elem = set(), set()
+        for p in parts:
+            reach |= p.everything()
+            elem |= p.as_elem()
+        return self.fresh(node, reach=frozenset(reach), tags={tag}, elem=frozenset(elem), items=items)
+
+    def ev(self, e, st: St) -> Val:
+        if e is None:
+            return V_NONE
+        t = type(e)
+        if t is ast.Constant:
+            return self.const_val(e)
+        if t is ast.Name:
+            return self.lookup(e.id, st, e)
+        if t is ast.Attribute:
+            return self.attr_val(self.ev(e.value, st), e.attr, st, e)
+        if t is ast.Call:
+            return self.ev_call(e, st)
+        if t is ast.Subscript:
+            base = self.ev(e.value, st)
+            if isinstance(e.slice, ast.Slice):
+                for x in (e.slice.lower, e.slice.upper, e.slice.step):
+                    if x is not None:
+                        self.ev(x, st)
+                if base.tags and base.tags <= {"str"}:
+                    return V_STR
+                tags = base.tags - {"unknown"} if base.tags - {"unknown"} else frozenset({"list"})
+                return self.fresh(e, reach=contents(base), tags=tags, elem=base.elem)
+            self.ev(e.slice, st)
+            if base.items and isinstance(e.slice, ast.Constant) and isinstance(e.slice.value, int) \
+                    and -len(base.items) <= e.slice.value < len(base.items):
+                return base.items[e.slice.value]
+            return self.elem_val(base)
+        if t is ast.JoinedStr:
+            for v in e.values:
+                self.ev(v, st)
+            return V_STR
+        if t is ast.FormattedValue:
+            self.ev(e.value, st)
+            return V_STR
+        if t is ast.BinOp:
+            l, r = self.ev(e.left, st), self.ev(e.right, st)
+            return self.binop(e, l, r)
+        if t is ast.UnaryOp:
+            v = self.ev(e.operand, st)
+            return V_BOOL if isinstance(e.op, ast.Not) else Val({IMM}, tags=(v.tags & IMM_TAGS) or {"int"})
+        if t is ast.BoolOp:
+            return join_vals([self.ev(v, st) for v in e.values])
+        if t is ast.Compare:
+            self.ev(e.left, st)
+            for c in e.comparators:
+                self.ev(c, st)
+            return V_BOOL
+        if t is ast.IfExp:
+            self.ev(e.test, st)
+            return self.ev(e.body, st).join(self.ev(e.orelse, st))
+        if t is ast.Tuple:
+            if any(isinstance(x, ast.Starred) for x in e.elts):
+                return self.container(e, [self.ev(x, st) for x in e.elts], "tuple")
+            parts = [self.ev(x, st) for x in e.elts]
+            if all(p.roots <= {IMM} and p.tags <= IMM_TAGS and not p.fns for p in parts):
+                return Val({IMM}, tags={"tuple"}, elem=frozenset().union(*[p.tags for p in parts]) if parts else E,
+                           items=tuple(parts))
+            return self.container(e, parts, "tuple", items=tuple(parts))
+        if t in (ast.List, ast.Set):
+            return self.container(e, [self.ev(x, st) for x in e.elts], "list" if t is ast.List else "set")
+        if t is ast.Dict:
+            parts = [self.ev(x, st) for x in e.keys if x is not None] + [self.ev(x, st) for x in e.values]
+            return self.container(e, parts, "dict")
+        if t in (ast.ListComp, ast.SetComp, ast.GeneratorExp, ast.DictComp):
+            saved = {}
+            names = set()
+            for g in e.generators:
+                it = self.ev(g.iter, st)
+                names |= set(_target_names(g.target))
+                for n in names:
+                    if n in st.env and n not in saved:
+                        saved[n] = st.env[n]
+                self.assign(st, g.target, self.elem_val(it), g, comp=True)
+                for c in g.ifs:
+                    self.ev(c, st)
+            if t is ast.DictComp:
+                parts = [self.ev(e.key, st), self.ev(e.value, st)]
+            else:
+                parts = [self.ev(e.elt, st)]
+            for n in names:
+                st.env.pop(n, None)
+            st.env.update(saved)
+            return self.container(e, parts, "dict" if t is ast.DictComp else ("set" if t is ast.SetComp else "list"))
+        if t is ast.Lambda:
+            saved = {}
+            a = e.args
+            ps = [x.arg for x in a.posonlyargs + a.args + a.kwonlyargs]
+            for p in ps:
+                if p in st.env:
+                    saved[p] = st.env[p]
+                st.env[p] = Val({("lamarg", p)}, tags={"unknown"})
+            self.ev(e.body, st)
+            for p in ps:
+                st.env.pop(p, None)
+            st.env.update(saved)
+            return Val({IMM}, tags={"callable"}, fns={("lambda", e.lineno * 1000 + e.col_offset)})
+        if t is ast.NamedExpr:
+            v = self.ev(e.value, st)
+            self.assign(st, e.target, v, e)
+            return v
+        if t is ast.Starred:
+            return self.elem_val(self.ev(e.value, st))
+        if t in (ast.Yield, ast.YieldFrom, ast.Await):
+            self.is_generator = self.is_generator or t is not ast.Await
+            if e.value is not None:
+                self.ev(e.value, st)
+            return V_NONE
+        if t is ast.Slice:
+            for x in (e.lower, e.upper, e.step):
+                if x is not None:
+                    self.ev(x, st)
+            return V_INT
+        return v_unknown(f"expression kind {t.__name__}")
+
+    def binop(self, e, l: Val, r: Val) -> Val:
+        lt, rt = l.tags, r.tags
+        if not lt and not rt:
+            return V_EMPTY
+        strs = (lt and lt <= {"str"}) or (rt and rt <= {"str"})
+        if strs and isinstance(e.op, (ast.Add, ast.Mod, ast.Mult)):
+            pre = l.prefix if isinstance(e.op, ast.Add) and lt <= {"str"} else None
+            return Val({IMM}, tags={"str"}, prefix=pre)
+        nums = {"int", "bool", "float"}
+        if lt and rt and lt <= nums and rt <= nums:
+            return Val({IMM}, tags={"float"} if "float" in (lt | rt) else {"int"})
+        if lt <= IMM_TAGS and rt <= IMM_TAGS and lt and rt:
+            return Val({IMM}, tags=(lt | rt) - {"none"})
+        tags = ((lt | rt) - IMM_TAGS) or {"unknown"}
+        if "list" in tags:
+            tags = {"list"}
+        return self.fresh(e, reach=contents(l) | contents(r), tags=tags, elem=l.elem | r.elem)
+
+    # ---- calls ------------------------------------------------------------------------------
+    def note_call(self, node, target: CallTarget):
+        lst = self.calls.setdefault(id(node), [])
+        self.call_nodes[id(node)] = node
+        for t in lst:
+            if t.kind == target.kind and t.func is target.func and t.cls is target.cls and t.desc == target.desc:
+                if target.recv_kind != t.recv_kind and t.recv_kind != "other":
+                    t.recv_kind = target.recv_kind if t.recv_kind == "none" else t.recv_kind
+                return
+        lst.append(target)
+
+    @staticmethod
+    def recv_kind(recv: Optional[FrozenSet]) -> str:
+        if recv is None:
+            return "none"
+        rs = [r for r in recv if r != IMM]
+        if not rs:
+            return "other"
+        if all(r[0] == "self" and r[1] is None for r in rs):
+            return "self"
+        if all(r[0] in ("self", "foot") for r in rs):
+            return "foot" if any(r[0] == "foot" for r in rs) else "field"
+        return "other"
+
+    def ev_call(self, node: ast.Call, st: St) -> Val:
+        f = node.func
+        base = None
+        if isinstance(f, ast.Attribute):
+            base = self.ev(f.value, st)
+            fv = self.attr_val(base, f.attr, st, f)
+        else:
+            fv = self.ev(f, st)
+        pos: List[Tuple[Val, ast.AST]] = []
+        star: List[Val] = []
+        for a in node.args:
+            if isinstance(a, ast.Starred):
+                star.append(self.elem_val(self.ev(a.value, st)))
+            else:
+                pos.append((self.ev(a, st), a))
+        kw: Dict[str, Tuple[Val, ast.AST]] = {}
+        for k in node.keywords:
+            v = self.ev(k.value, st)
+            if k.arg is None:
+                star.append(self.elem_val(v))
+            else:
+                kw[k.arg] = (v, k.value)
+        outs: List[Val] = []
+        handled = False
+        if base is not None and f.attr in MUTATORS:
+            defined = any(c.find_method(f.attr) for c in self.inst_classes(base))
+            if not defined or (base.tags - {t for t in base.tags if t.startswith("inst:")} - {"node"}):
+                outs.append(self.do_mutator(st, base, f.attr, pos, kw, node))
+                handled = True
+                if not defined:
+                    fv = fv.with_(fns=E)
+        for t in sorted(fv.fns, key=str):
+            k = t[0]
+            handled = True
+            if k == "func":
+                callee = self.prog.funcs.get(t[1])
+                if callee is None:
+                    outs.append(v_unknown("missing function " + t[1]))
+                    continue
+                recv = t[2]
+                p2 = list(pos)
+                if recv is None and callee.is_method and callee.self_name in callee.params:
+                    if p2:
+                        recv = frozenset(p2[0][0].roots)
+                        p2 = p2[1:]
+                    else:
+                        recv = frozenset({("unknown", "unbound method call without receiver")})
+                outs.append(self.apply_callee(st, callee, recv, p2, kw, node, star))
+            elif k == "cls":
+                outs.append(self.construct(st, self.prog.classes[t[1]], pos, kw, node, star))
+            elif k == "ext":
+                outs.append(self.ext_call(st, t[1], base, pos, kw, node, star))
+            elif k == "builtin":
+                outs.append(self.builtin_call(st, t[1], pos, kw, node, star))
+            elif k == "lambda":
+                self.note_call(node, CallTarget("lambda", desc="lambda (effects charged where it is written)"))
+                outs.append(Val({("unknown", "result of a lambda")}, tags={"unknown"}))
+        if not handled:
+            if base is not None:
+                outs.append(self.ext_method(st, base, f.attr, pos, kw, node))
+            else:
+                self.note_call(node, CallTarget("paramcall", desc=src_of(f)))
+                outs.append(Val({("unknown", "result of calling a callable parameter/value")}, tags={"unknown"}))
+        return join_vals(outs)
+
+    def do_mutator(self, st, base: Val, name: str, pos, kw, node) -> Val:
+        stored = None
+        if name in STORING_MUTATORS:
+            vals = [v for v, _ in pos] + [v for v, _ in kw.values()]
+            if name in ("extend", "update"):
+                vals = [self.elem_val(v) for v in vals]
+            if name in ("insert", "setdefault", "__setitem__") and len(vals) > 1:
+                vals = vals[1:]
+            stored = join_vals(vals) if vals else None
+        self.write(st, base, node, "mut", stored=stored)
+        self.note_call(node, CallTarget("mutator", desc=name))
+        if name in ("pop", "popitem", "popleft"):
+            return self.elem_val(base)
+        if name == "setdefault":
+            r = self.elem_val(base)
+            if len(pos) > 1:
+                r = r.join(pos[1][0])
+            return r
+        return V_NONE
+
+    def ext_method(self, st, base: Val, name: str, pos, kw, node) -> Val:
+        self.note_call(node, CallTarget("ext", desc="method ." + name))
+        args = [v for v, _ in pos] + [v for v, _ in kw.values()]
+        if base.tags and base.tags <= {"str"}:
+            if name in ("split", "rsplit", "splitlines", "partition", "rpartition"):
+                return self.fresh(node, tags={"list"}, elem={"str"})
+            if name in ("startswith", "endswith") or name.startswith("is"):
+                return V_BOOL
+            if name in ("find", "rfind", "index", "rindex", "count"):
+                return V_INT
+            return V_STR
+        if name == "get":
+            r = self.elem_val(base)
+            if len(pos) > 1:
+                r = r.join(pos[1][0])
+            else:
+                r = r.join(V_NONE)
+            return r
+        if name in ("values", "items", "keys", "copy", "__iter__"):
+            return self.fresh(node, reach=contents(base), tags={"list"}, elem=base.elem)
+        # any other method of an object that is not an instance of an analysed class: assumed to
+        # return a value / a fresh object that does not expose mutable internals of the receiver
+        dirty = any(("node" in v.all_tags() or "unknown" in v.all_tags()) for v in [base] + args)
+        return self.fresh(node, tags={"unknown"} if dirty else {"ext"})
+
+    def ext_call(self, st, desc, base, pos, kw, node, star) -> Val:
+        self.note_call(node, CallTarget("ext", desc=desc))
+        if desc.endswith("typing.cast") or desc == "typing.cast":
+            return pos[1][0] if len(pos) > 1 else v_unknown("cast")
+        args = [v for v, _ in pos] + [v for v, _ in kw.values()] + star
+        dirty = any(("node" in v.all_tags() or "unknown" in v.all_tags()) for v in args)
+        return self.fresh(node, tags={"unknown"} if dirty else {"ext"})
+
+    def builtin_call(self, st, name, pos, kw, node, star) -> Val:
+        self.note_call(node, CallTarget("builtin", desc=name))
+        args = [v for v, _ in pos] + star
+        if name == "getattr" and pos:
+            obj = pos[0][0]
+            nm = pos[1][1] if len(pos) > 1 else None
+            dflt = pos[2][0] if len(pos) > 2 else None
+            if isinstance(nm, ast.Constant) and isinstance(nm.value, str):
+                r = self.attr_val(obj, nm.value, st, node)
+            else:
+                nmv = pos[1][0] if len(pos) > 1 else V_EMPTY
+                fns = set()
+                classes = self.inst_classes(obj)
+                for c in classes:
+                    for k in self.A.family(c):
+                        for mn, m in k.methods.items():
+                            if nmv.prefix is None or mn.startswith(nmv.prefix):
+                                if not m.is_property:
+                                    fns.add(("func", m.key, frozenset(obj.roots)))
+                if classes:
+                    r = Val({IMM}, tags={"callable"}, fns=fns)
+                else:
+                    r = v_unknown("getattr with a computed name on an object of unknown class")
+            return r.join(dflt) if dflt is not None else r
+        if name in ("setattr", "delattr") and pos:
+            self.write(st, pos[0][0], node, "attr", attr="<computed>", stored=pos[2][0] if len(pos) > 2 else None)
+            return V_NONE
+        if name == "super":
+            if self.cls is not None and self.cls.bases:
+                t = frozenset().union(*[self.inst_tags(b) for b in self.cls.bases])
+                return Val({("self", None)}, tags=t)
+            return Val({("self", None)}, tags={"ext"})
+        if name == "type" and len(args) == 1:
+            ks = [c.key for c in self.inst_classes(args[0])]
+            if ks:
+                return Val({("clsobj", k) for k in ks}, tags={"class"}, fns={("cls", k) for k in ks})
+            return Val({IMM}, tags={"class"})
+        if name in ("len", "int", "ord", "hash", "id", "abs", "sum", "round", "divmod"):
+            return V_INT
+        if name in ("isinstance", "issubclass", "hasattr", "callable", "bool", "any", "all"):
+            return V_BOOL
+        if name in ("str", "repr", "chr", "format"):
+            return V_STR
+        if name == "float":
+            return V_FLOAT
+        if name == "print":
+            return V_NONE
+        if name in ("max", "min"):
+            return join_vals([self.elem_val(a) if len(args) == 1 else a for a in args]) if args else V_INT
+        if name == "range":
+            return self.fresh(node, tags={"list"}, elem={"int"})
+        if name == "next" and args:
+            return self.elem_val(args[0])
+        if name in CONTAINER_BUILTINS:
+            reach, elem = set(), set()
+            for a in args:
+                reach |= contents(a)
+                elem |= a.elem
+            for v, _ in kw.values():
+                reach |= v.everything()
+                elem |= v.as_elem()
+            if name in ("enumerate",):
+                elem.add("int")
+            tag = {"dict": "dict", "set": "set", "frozenset": "set", "tuple": "tuple"}.get(name, "list")
+            if name in ("map", "filter") and args and args[0].fns:
+                return v_unknown(f"{name}() with a function argument")
+            return self.fresh(node, reach=frozenset(reach), tags={tag}, elem=frozenset(elem))
+        if name in FORBIDDEN_CALLS:
+            self.record(f"unknown:call of {name}", node, "direct")
+            return v_unknown("result of " + name)
+        # exception classes and other builtins: allocate
+        reach = set()
+        for a in args:
+            reach |= a.everything()
+        return self.fresh(node, reach=frozenset(reach), tags={"ext"})
+
+    def export(self, v: Val) -> Val:
+        """The value as seen by a callee (for the parameter-value tables)."""
+        def ex(rs):
+            out = set()
+            for r in rs:
+                k = r[0]
+                if k == "self":
+                    out.add(("foot",))
+                elif k == "param":
+                    out.add(("ext",))
+                    pv = self.A.paramvals.get((self.f.key, r[1]))
+                    if pv is not None:
+                        out |= {x for x in pv.roots | pv.reach if is_shared(x) or x[0] == "foot"}
+                elif is_fresh(r):
+                    out.add(("fresh",))
+                elif k == "lamarg":
+                    out.add(("unknown", "lambda parameter"))
+                else:
+                    out.add(r)
+            return frozenset(out)
+        fns = frozenset((t[0], t[1], ex(t[2])) if (t[0] == "func" and t[2] is not None) else t for t in v.fns)
+        return Val(ex(v.roots), ex(v.reach), v.tags, v.elem, fns, None, v.prefix)
+
+    def bind_args(self, callee: Func, recv, pos, kw, star, skip_self=True):
+        params = list(callee.params)
+        if callee.is_method and skip_self and callee.self_name in params:
+            params = params[1:]
+        n_pos = callee.n_positional - (1 if (callee.is_method and skip_self and callee.self_name in callee.params) else 0)
+        argmap: Dict[str, Val] = {}
+        argexpr: Dict[str, ast.AST] = {}
+        extra: List[Val] = []
+        for i, (v, e) in enumerate(pos):
+            if i < n_pos:
+                argmap[params[i]] = v
+                argexpr[params[i]] = e
+            else:
+                extra.append(v)
+        for k, (v, e) in kw.items():
+            if k in params:
+                argmap[k] = v
+                argexpr[k] = e
+            else:
+                extra.append(v)
+        if star:
+            sv = join_vals(star)
+            for p in params:
+                if p not in argmap:
+                    argmap[p] = sv
+        for p in params:
+            if p not in argmap and p in callee.defaults:
+                argmap[p] = self.default_val(callee, p)
+        if callee.vararg:
+            argmap[callee.vararg] = self.container(callee.node, extra, "tuple") if extra else Val({IMM}, tags={"tuple"})
+        if callee.kwarg:
+            argmap[callee.kwarg] = self.container(callee.node, extra, "dict") if extra else Val({IMM}, tags={"dict"})
+        return argmap, argexpr
+
+    def translate_roots(self, rs, callee: Func, recv, argmap) -> FrozenSet:
+        out = set()
+        for r in rs:
+            k = r[0]
+            if k == "self":
+                if recv is None:
+                    out.add(r)      # closure over the same receiver
+                    continue
+                for q in recv:
+                    if q[0] == "self":
+                        out.add(q if (q[1] is not None or r[1] is None) else ("self", r[1]))
+                    elif q[0] == "param":
+                        out.add(q if (q[2] is not None or r[1] is None) else ("param", q[1], r[1]))
+                    elif is_fresh(q) or q == IMM:
+                        out.add(q)
+                    else:
+                        out.add(q)
+            elif k == "param":
+                if r[1] in argmap:
+                    a = argmap[r[1]]
+                    if r[2] is None:
+                        out |= a.roots
+                    else:
+                        out |= contents(a, r[2])
+                elif callee.parent is not None:
+                    out.add(r)      # closure variable already expressed in the enclosing frame
+                else:
+                    out.add(("unknown", f"unbound parameter {r[1]} of {callee.qual}"))
+            else:
+                out.add(r)
+        return frozenset(out)
+
+    def translate_val(self, v: Val, callee, recv, argmap, node) -> Val:
+        def tr(rs):
+            return self.translate_roots(rs, callee, recv, argmap)
+        site = ("fresh", node.lineno * 1000 + node.col_offset)
+        def refresh(rs):
+            return frozenset(site if is_fresh(r) else r for r in rs)
+        roots = refresh(tr(v.roots))
+        reach = refresh(tr(v.reach))
+        # contents of an argument-rooted result may also refer to what the argument can reach
+        for r in v.roots | v.reach:
+            if r[0] == "param" and r[1] in argmap:
+                reach |= refresh(argmap[r[1]].reach)
+        fns = frozenset((t[0], t[1], refresh(tr(t[2]))) if (t[0] == "func" and t[2] is not None) else t for t in v.fns)
+        items = None if v.items is None else tuple(self.translate_val(i, callee, recv, argmap, node) for i in v.items)
+        return Val(roots, reach, v.tags, v.elem, fns, items, v.prefix)
+
+    def apply_callee(self, st: St, callee: Func, recv, pos, kw, node, star=None, export_args=True) -> Val:
+        argmap, argexpr = self.bind_args(callee, recv, pos, kw, star or [])
+        if export_args:
+            for p, v in argmap.items():
+                self.A.merge(self.A.paramvals, (callee.key, p), self.export(v))
+        self.note_call(node, CallTarget("func", func=callee, recv=recv, recv_kind=self.recv_kind(recv),
+                                        argmap=argexpr, desc=callee.key))
+        S = self.A.summ.get(callee.key)
+        if S is None:
+            return V_EMPTY
+        how = f"via call to {callee.qual}"
+        for loc in sorted(S.mod):
+            if not self.A.frames.allows(callee.key, loc):
+                continue            # a violation of the callee's own declared frame: blamed there
+            kind, head, rest = parse_loc(loc)
+            if kind == "self":
+                if recv is None:
+                    self.record(loc, node, how)
+                    continue
+                for q in sorted(recv, key=str):
+                    if q[0] in ("self", "foot"):
+                        self.record(loc, node, how)
+                    else:
+                        l2 = self.loc_of(q, rest[0] if (len(rest) == 1 and rest[0] != "*") else None,
+                                         "attr" if (len(rest) == 1 and rest[0] != "*") else "item")
+                        if l2 is not None:
+                            self.record(l2, node, f"{how} ({loc})")
+            elif kind == "param":
+                if head in argmap:
+                    binding = len(rest) == 1 and rest[0] != "*"
+                    deep = len(rest) >= 2
+                    for q in sorted(argmap[head].roots, key=str):
+                        if deep and q[0] == "default" and self.A.is_empty_shared(q):
+                            continue        # contents of an always-empty default object
+                        l2 = self.loc_of(q, rest[0] if binding else None, "attr" if binding else "item")
+                        if l2 is not None:
+                            self.record(l2, node, f"{how} ({loc})")
+                elif callee.parent is not None:
+                    self.record(loc, node, how)
+                elif head == "<external>":
+                    self.record(loc, node, how)
+                else:
+                    self.record(f"unknown:unbound parameter {head} of {callee.qual}", node, how)
+            else:
+                self.record(loc, node, how)
+        for p, shared in S.param_reach.items():
+            if p in argmap:
+                self.add_reach(st, argmap[p].roots, Val(reach=shared))
+                for r in argmap[p].roots:
+                    if r[0] == "param":
+                        self.param_reach[r[1]] = self.param_reach.get(r[1], E) | shared
+        return imm_norm(self.translate_val(S.ret, callee, recv, argmap, node))
+
+    def construct(self, st: St, c: Class, pos, kw, node, star=None) -> Val:
+        args = [v for v, _ in pos] + [v for v, _ in kw.values()] + (star or [])
+        reach, elem = set(), set()
+        for v in args:
+            reach |= v.everything()
+        inst = self.fresh(node, reach=frozenset(reach), tags=self.inst_tags(c))
+        init = c.find_method("__init__")
+        if init is not None:
+            self.apply_callee(st, init, frozenset(inst.roots), pos, kw, node, star)
+            self.calls[id(node)][-1].kind = "ctor" if self.calls[id(node)][-1].func is init else self.calls[id(node)][-1].kind
+            for t in self.calls[id(node)]:
+                if t.func is init:
+                    t.kind, t.cls = "ctor", c
+        else:
+            argexpr = {}
+            if c.is_dataclass:
+                for i, (v, e) in enumerate(pos):
+                    if i < len(c.dc_fields):
+                        self.A.merge(self.A.fieldvals, (c.key, c.dc_fields[i]), self.export(v))
+                        argexpr[c.dc_fields[i]] = e
+                for k, (v, e) in kw.items():
+                    self.A.merge(self.A.fieldvals, (c.key, k), self.export(v))
+                    argexpr[k] = e
+            self.note_call(node, CallTarget("ctor", cls=c, argmap=argexpr, desc=c.key))
+        return inst
+
+    # ---- statements --------------------------------------------------------------------------
+    def assign(self, st: St, target, v: Val, node, comp=False):
+        if isinstance(target, ast.Name):
+            self.bind(st, target.id, v)
+            if self.f.is_module and not comp and target.id in self.m.data:
+                pass
+        elif isinstance(target, (ast.Tuple, ast.List)):
+            elts = target.elts
+            if v.items is not None and len(v.items) == len(elts) and not any(isinstance(x, ast.Starred) for x in elts):
+                for t, iv in zip(elts, v.items):
+                    self.assign(st, t, iv, node, comp)
+            else:
+                ev = self.elem_val(v)
+                for t in elts:
+                    self.assign(st, t, ev, node, comp)
+        elif isinstance(target, ast.Starred):
+            self.assign(st, target.value, self.fresh(target, reach=v.roots | v.reach, tags={"list"}, elem=v.as_elem()), node, comp)
+        elif isinstance(target, ast.Attribute):
+            base = self.ev(target.value, st)
+            self.write(st, base, target, "attr", target.attr, stored=v)
+            if ("self", None) in base.roots:
+                st.assigned = st.assigned | {target.attr}
+        elif isinstance(target, ast.Subscript):
+            base = self.ev(target.value, st)
+            self.ev(target.slice, st)
+            self.write(st, base, target, "item", stored=v)
+
+    def do_simple(self, s, st: St):
+        self._cur_stmt = s
+        if isinstance(s, ast.Assign):
+            v = self.ev(s.value, st)
+            for t in s.targets:
+                self.assign(st, t, v, s)
+        elif isinstance(s, ast.AnnAssign):
+            if s.value is not None:
+                self.assign(st, s.target, self.ev(s.value, st), s)
+        elif isinstance(s, ast.AugAssign):
+            rhs = self.ev(s.value, st)
+            t = s.target
+            if isinstance(t, ast.Name):
+                cur = self.lookup(t.id, st, t)
+                res = self.binop(s, cur, rhs)
+                # `x += e` mutates x in place only if x is a list/set/dict (…__iadd__/__ior__); it is
+                # treated as such when a container type is inferred for either operand
+                CONT = {"list", "set", "dict"}
+                inplace = bool(cur.tags & CONT) or (bool(rhs.tags & CONT) and not (cur.tags and cur.tags <= IMM_TAGS))
+                if not inplace:
+                    self.bind(st, t.id, res)
+                else:
+                    self.write(st, cur, s, "mut", stored=self.elem_val(rhs))
+                    self.bind(st, t.id, cur.join(res))
+            elif isinstance(t, ast.Attribute):
+                base = self.ev(t.value, st)
+                cur = self.attr_val(base, t.attr, st, t)
+                res = self.binop(s, cur, rhs)
+                CONT = {"list", "set", "dict"}
+                if bool(cur.tags & CONT) or (bool(rhs.tags & CONT) and not (cur.tags and cur.tags <= IMM_TAGS)):
+                    self.write(st, cur, s, "mut", stored=self.elem_val(rhs))
+                    res = cur.join(res)
+                self.write(st, base, t, "attr", t.attr, stored=res)
+                if ("self", None) in base.roots:
+                    st.assigned = st.assigned | {t.attr}
+            elif isinstance(t, ast.Subscript):
+                base = self.ev(t.value, st)
+                self.ev(t.slice, st)
+                self.write(st, base, t, "item", stored=rhs)
+        elif isinstance(s, ast.Delete):
+            for t in s.targets:
+                if isinstance(t, ast.Name):
+                    st.env.pop(t.id, None)
+                elif isinstance(t, ast.Attribute):
+                    self.write(st, self.ev(t.value, st), t, "attr", t.attr)
+                elif isinstance(t, ast.Subscript):
+                    base = self.ev(t.value, st)
+                    self.ev(t.slice, st)
+                    self.write(st, base, t, "item")
+        elif isinstance(s, ast.Expr):
+            self.ev(s.value, st)
+        elif isinstance(s, ast.Assert):
+            self.ev(s.test, st)
+            if s.msg is not None:
+                self.ev(s.msg, st)
+        elif isinstance(s, (ast.FunctionDef, ast.AsyncFunctionDef)):
+            nf = self.f.nested.get(s.name) if not self.f.is_module else None
+            if nf is not None:
+                self.bind(st, s.name, Val({IMM}, tags={"callable"}, fns={("func", nf.key, None)}))
+                # the closure may escape: charge its effects here as well
+                fake = [(Val({("lamarg", p)}, tags={"unknown"}), s) for p in nf.params]
+                self.apply_callee(st, nf, None, fake, {}, s, export_args=False)
+                self.calls.pop(id(s), None)
+                self.call_nodes.pop(id(s), None)
+        elif isinstance(s, (ast.Import, ast.ImportFrom)):
+            if not self.f.is_module:
+                for a in s.names:
+                    self.bind(st, (a.asname or a.name).split(".")[0], Val({IMM}, tags={"ext-imm"}, fns={("ext", a.name)}))
+        elif isinstance(s, ast.ClassDef):
+            if not self.f.is_module:
+                self.bind(st, s.name, v_unknown("locally defined class"))
+        return st
+
+    def do_test(self, e, st: St):
+        self._cur_stmt = e
+        s2 = st.copy()
+        self.ev(e, s2)
+        return s2, s2.copy()
+
+    def do_iter(self, s, st: St):
+        self._cur_stmt = s
+        self._iters[id(s)] = self.ev(s.iter, st)
+        return st
+
+    def do_bind_iter(self, s, st: St):
+        s2 = st.copy()
+        self._cur_stmt = s
+        self.assign(s2, s.target, self.elem_val(self._iters[id(s)]), s)
+        return s2
+
+    def do_return(self, s, st: St):
+        self._cur_stmt = s
+        v = self.ev(s.value, st) if s.value is not None else V_NONE
+        self.ret = v if self.ret is None else self.ret.join(v)
+        return st
+
+    def do_raise(self, s, st: St):
+        self._cur_stmt = s
+        if s.exc is not None:
+            self.ev(s.exc, st)
+        if s.cause is not None:
+            self.ev(s.cause, st)
+        return st
+
+    def do_subject(self, s, st: St):
+        self._cur_stmt = s
+        self._subject[id(s)] = self.ev(s.subject, st)
+        return st
+
+    def do_case(self, s, case, st: St):
+        s2 = st.copy()
+        subj = self._subject[id(s)]
+        inner = Val(contents(subj) | subj.roots, subj.reach, subj.all_tags() or {"unknown"}, subj.elem)
+        for n in ast.walk(case.pattern):
+            if isinstance(n, (ast.MatchAs, ast.MatchStar)) and n.name:
+                self.bind(s2, n.name, subj if n is case.pattern else inner)
+            elif isinstance(n, ast.MatchMapping) and n.rest:
+                self.bind(s2, n.rest, inner)
+            elif isinstance(n, ast.MatchValue):
+                self.ev(n.value, s2)
+            elif isinstance(n, ast.MatchClass):
+                self.ev(n.cls, s2)
+        return s2, st
+
+    def do_with(self, s, st: St):
+        self._cur_stmt = s
+        for it in s.items:
+            v = self.ev(it.context_expr, st)
+            if it.optional_vars is not None:
+                self.assign(st, it.optional_vars, v, s)
+        return st
+
+    def do_handler(self, h, st: St):
+        s2 = st.copy() if st is not None else St()
+        if h.type is not None:
+            self.ev(h.type, s2)
+        if h.name:
+            self.bind(s2, h.name, self.fresh(h, tags={"ext"}))
+        return s2
+
+
+# ======================================================================================
+# DEF/USE pass: definitely-assigned / may-read-before-assign instance fields
+# ======================================================================================
+class DefUseAnalysis:
+    """Locations are (ClassName, field).  One abstract instance per class and footprint: a parser
+    owns one lexer and one token stream; a freshly constructed object counts only from the moment
+    it is stored into a field of the receiver (`self.g = Class(...)`)."""
+
+    def __init__(self, A: Analysis, class_keys: List[str]):
+        self.A = A
+        self.prog = A.prog
+        self.classes = [A.prog.classes[k] for k in class_keys if k in A.prog.classes]
+        self.names = {c.name for c in self.classes}
+        self.universe: FrozenSet = frozenset(
+            (c.name, fld) for c in self.classes for fld in A.inst_fields.get(c.key, {}))
+        self.must: Dict[str, FrozenSet] = {}
+        self.rbw: Dict[str, Dict[Tuple[str, str], str]] = {}
+        mods = {c.module.name for c in self.classes}
+        self.funcs = [f for f in self.prog.real_functions() if f.module.name in mods]
+        self.rounds = 0
+
+    def run(self):
+        for rnd in range(40):
+            self.rounds = rnd + 1
+            changed = False
+            for f in self.funcs:
+                d = DefUse(self, f)
+                d.analyse()
+                if self.must.get(f.key) != d.must_out or set(self.rbw.get(f.key, {})) != set(d.rbw):
+                    changed = True
+                self.must[f.key] = d.must_out
+                self.rbw[f.key] = d.rbw
+            if not changed:
+                return self
+        raise RuntimeError("FX def/use fixpoint did not converge")
+
+    def is_field(self, cls: Optional[Class], name: str) -> bool:
+        if cls is None:
+            return False
+        return bool(self.A.field_sites(cls, name)) and cls.find_method(name) is None
+
+
+class DefUse(Flow):
+    def __init__(self, DU: DefUseAnalysis, f: Func):
+        super().__init__()
+        self.DU = DU
+        self.f = f
+        self.cls = f.cls
+        self.eff = DU.A.results.get(f.key)
+        self.rbw: Dict[Tuple[str, str], str] = {}
+        self.must_out: FrozenSet = DU.universe
+
+    def analyse(self):
+        self.run(self.f.node.body, frozenset())
+        outs = [st for _, st in self.returns if st is not None]
+        if self.fell_off_end is not None:
+            outs.append(self.fell_off_end)
+        m = None
+        for o in outs:
+            m = o if m is None else (m & o)
+        self.must_out = m if m is not None else self.DU.universe   # never returns normally
+
+    def join(self, a, b):
+        return a & b
+
+    # ---- helpers ------------------------------------------------------------------------------
+    def cname(self) -> str:
+        return self.cls.name if self.cls else "?"
+
+    def is_self(self, e) -> bool:
+        return isinstance(e, ast.Name) and self.f.self_name is not None and e.id == self.f.self_name
+
+    def read(self, fld: str, st, node):
+        if not self.DU.is_field(self.cls, fld):
+            return
+        loc = (self.cname(), fld)
+        if loc not in st and loc not in self.rbw:
+            self.rbw[loc] = f"{self.f.module.rel}:{getattr(node, 'lineno', '?')}: `{src_of(node)}` in {self.f.qual}"
+
+    def call_effect(self, e: ast.Call, st):
+        targets = self.eff.calls.get(id(e), []) if self.eff is not None else []
+        musts = []
+        for t in targets:
+            if t.kind == "func" and t.func is not None:
+                relevant = t.recv_kind in ("self", "field", "foot") or (t.recv_kind == "none" and t.func.parent is not None)
+                if not relevant:
+                    musts.append(frozenset())
+                    continue
+                for loc, site in self.DU.rbw.get(t.func.key, {}).items():
+                    if loc not in st and loc not in self.rbw:
+                        self.rbw[loc] = f"{self.f.module.rel}:{e.lineno}: `{src_of(e)}` in {self.f.qual} -> {site}"
+                musts.append(self.DU.must.get(t.func.key, self.DU.universe))
+            else:
+                musts.append(frozenset())
+        if not musts:
+            return st
+        m = musts[0]
+        for x in musts[1:]:
+            m = m & x
+        return st | m
+
+    def ex(self, e, st):
+        """Evaluate expression e (reads, calls) in evaluation order; returns the state after."""
+        if e is None:
+            return st
+        if isinstance(e, ast.Attribute):
+            if self.is_self(e.value):
+                if isinstance(e.ctx, ast.Load):
+                    if e.attr == "__dict__":
+                        for (c, fld) in self.DU.universe:
+                            if c == self.cname():
+                                self.read(fld, st, e)
+                    else:
+                        self.read(e.attr, st, e)
+                return st
+            return self.ex(e.value, st)
+        if isinstance(e, ast.Call):
+            f = e.func
+            if isinstance(f, ast.Attribute) and self.is_self(f.value) and not self.DU.is_field(self.cls, f.attr):
+                pass                                    # self.method(...): no field is read
+            else:
+                st = self.ex(f, st)
+            if isinstance(f, ast.Name) and f.id in ("getattr", "hasattr") and len(e.args) >= 2 \
+                    and self.is_self(e.args[0]) and isinstance(e.args[1], ast.Constant) and isinstance(e.args[1].value, str):
+                self.read(e.args[1].value, st, e)
+            if isinstance(f, ast.Name) and f.id == "vars" and e.args and self.is_self(e.args[0]):
+                for (c, fld) in self.DU.universe:
+                    if c == self.cname():
+                        self.read(fld, st, e)
+            for a in e.args:
+                st = self.ex(a.value if isinstance(a, ast.Starred) else a, st)
+            for k in e.keywords:
+                st = self.ex(k.value, st)
+            return self.call_effect(e, st)
+        if isinstance(e, ast.BoolOp):
+            st = self.ex(e.values[0], st)
+            for v in e.values[1:]:
+                self.ex(v, st)                        # conditionally evaluated: reads count, assigns do not
+            return st
+        if isinstance(e, ast.IfExp):
+            st = self.ex(e.test, st)
+            self.ex(e.body, st)
+            self.ex(e.orelse, st)
+            return st
+        if isinstance(e, (ast.Lambda,)):
+            self.ex(e.body, st)
+            return st
+        if isinstance(e, (ast.ListComp, ast.SetComp, ast.GeneratorExp, ast.DictComp)):
+            for i, g in enumerate(e.generators):
+                s2 = self.ex(g.iter, st)
+                if i == 0:
+                    st = s2
+                for c in g.ifs:
+                    self.ex(c, st)
+            if isinstance(e, ast.DictComp):
+                self.ex(e.key, st)
+                self.ex(e.value, st)
+            else:
+                self.ex(e.elt, st)
+            return st
+        if isinstance(e, ast.NamedExpr):
+            return self.ex(e.value, st)
+        if isinstance(e, ast.Compare):
+            st = self.ex(e.left, st)
+            for i, c in enumerate(e.comparators):
+                if i == 0:
+                    st = self.ex(c, st)
+                else:
+                    self.ex(c, st)
+            return st
+        for ch in ast.iter_child_nodes(e):
+            if isinstance(ch, ast.expr):
+                st = self.ex(ch, st)
+            elif isinstance(ch, (ast.keyword,)):
+                st = self.ex(ch.value, st)
+            elif isinstance(ch, ast.Slice):
+                for x in (ch.lower, ch.upper, ch.step):
+                    st = self.ex(x, st)
+        return st
+
+    def ctor_fields(self, value, st):
+        """`self.g = D(...)`: the fields D.__init__ definitely assigns belong to the footprint now."""
+        if not isinstance(value, ast.Call) or self.eff is None:
+            return frozenset()
+        ts = self.eff.calls.get(id(value), [])
+        outs = None
+        for t in ts:
+            if t.kind == "ctor" and t.cls is not None and t.cls.name in self.DU.names and t.func is not None:
+                m = self.DU.must.get(t.func.key, self.DU.universe)
+                m = frozenset(x for x in m if x[0] == t.cls.name)
+            else:
+                m = frozenset()
+            outs = m if outs is None else (outs & m)
+        return outs or frozenset()
+
+    def assign_target(self, t, st, value=None):
+        if isinstance(t, ast.Attribute):
+            if self.is_self(t.value):
+                st = st | {(self.cname(), t.attr)}
+                if value is not None:
+                    st = st | self.ctor_fields(value, st)
+                return st
+            return self.ex(t.value, st)
+        if isinstance(t, ast.Subscript):
+            st = self.ex(t.value, st)
+            return self.ex(t.slice, st)
+        if isinstance(t, (ast.Tuple, ast.List)):
+            vals = value.elts if isinstance(value, (ast.Tuple, ast.List)) and len(value.elts) == len(t.elts) else [None] * len(t.elts)
+            for x, v in zip(t.elts, vals):
+                st = self.assign_target(x, st, v)
+            return st
+        if isinstance(t, ast.Starred):
+            return self.assign_target(t.value, st)
+        return st
+
+    # ---- transfer --------------------------------------------------------------------------------
+    def do_simple(self, s, st):
+        if isinstance(s, ast.Assign):
+            st = self.ex(s.value, st)
+            for t in s.targets:
+                st = self.assign_target(t, st, s.value)
+        elif isinstance(s, ast.AnnAssign):
+            if s.value is not None:
+                st = self.ex(s.value, st)
+                st = self.assign_target(s.target, st, s.value)
+        elif isinstance(s, ast.AugAssign):
+            t = s.target
+            if isinstance(t, ast.Attribute) and self.is_self(t.value):
+                self.read(t.attr, st, t)
+            elif isinstance(t, (ast.Attribute, ast.Subscript)):
+                st = self.ex(t.value, st)
+                if isinstance(t, ast.Subscript):
+                    st = self.ex(t.slice, st)
+            st = self.ex(s.value, st)
+            st = self.assign_target(t, st)
+        elif isinstance(s, ast.Delete):
+            for t in s.targets:
+                if isinstance(t, ast.Attribute) and self.is_self(t.value):
+                    st = st - {(self.cname(), t.attr)}
+                else:
+                    st = self.ex(t, st) if not isinstance(t, ast.Name) else st
+        elif isinstance(s, ast.Expr):
+            st = self.ex(s.value, st)
+        elif isinstance(s, ast.Assert):
+            st = self.ex(s.test, st)
+        elif isinstance(s, (ast.FunctionDef, ast.AsyncFunctionDef)):
+            pass        # closure bodies are charged where they are called
+        return st
+
+    def do_test(self, e, st):
+        st = self.ex(e, st)
+        return st, st
+
+    def do_iter(self, s, st):
+        return self.ex(s.iter, st)
+
+    def do_bind_iter(self, s, st):
+        return self.assign_target(s.target, st)
+
+    def do_return(self, s, st):
+        return self.ex(s.value, st)
+
+    def do_raise(self, s, st):
+        st = self.ex(s.exc, st)
+        return st
+
+    def do_subject(self, s, st):
+        return self.ex(s.subject, st)
+
+    def do_case(self, s, case, st):
+        for n in ast.walk(case.pattern):
+            if isinstance(n, ast.MatchValue):
+                self.ex(n.value, st)
+        return st, st
+
+    def do_with(self, s, st):
+        for it in s.items:
+            st = self.ex(it.context_expr, st)
+            if it.optional_vars is not None:
+                st = self.assign_target(it.optional_vars, st)
+        return st
